@@ -15,14 +15,14 @@ def run(ctx):
     gen = ctx.path("rectpairs.ndjson")
     g = core.tlc_ok(core.tlc("GenRect", "GenRect.cfg", env={"OUT": gen}, timeout=300), "GenRect"); ctx.add_tlc(g)
     for k in range(8 if q else 32):
-        add("plain" if k % 2 == 0 else "hi", fam="gps", n=12 if q else 50, emb="0", npts=60, cfg="batch", reunion=1, seed=s * 1000 + k,
+        add("plain" if k % 2 == 0 else "hi", fam="gps", n=25 if q else 120, emb="0", npts=60, cfg="batch", reunion=1, seed=s * 1000 + k,
             R=[32, 48, 64][k % 3], maxpaths=2 if k % 4 else 3, maxv=[5, 6, 7][k % 3])
     for k in range(4 if q else 16):
         add("plain", fam="in", **{"in": gen}, n=0, skip=k + (s % 7), stride=(64 if q else 16), emb="0", cfg="batch", reunion=1, seed=s)
     for k in range(2 if q else 8):
-        add("plain", fam="walk", n=60 if q else 300, grid=6, emb="0", cfg="batch", reunion=1, seed=s * 100 + k)
+        add("plain", fam="walk", n=150 if q else 900, grid=6, emb="0", cfg="batch", reunion=1, seed=s * 100 + k)
     for k in range(2 if q else 8):
-        add("plain" if k % 2 else "hi", fam="degen", n=150 if q else 600, emb="0,1,3,4", npts=30, cfg="batch", reunion=0, seed=s * 100 + 50 + k)
+        add("plain" if k % 2 else "hi", fam="degen", n=300 if q else 1500, emb="0,1,3,4", npts=30, cfg="batch", reunion=0, seed=s * 100 + 50 + k)
     add("plain", fam="ladder", emb="0", npts=40, cfg="batch", reunion=1, seed=s)
     jobs = boolfam.run_jobs(ctx, J)
     boolfam.tally(ctx, jobs)
